@@ -1,10 +1,15 @@
 CHECK = {
-    "mode": "inpkg", "pkg": "server", "files": ["c17_stream_test.go"],
+    "builds": [
+        {"mode": "inpkg", "pkg": "server", "files": ["c17_stream_test.go"]},
+        {"mode": "inpkg", "pkg": "llm", "files": ["c17_completion_test.go"]},
+    ],
     "level": "exploration",
     "engine": "streamdiff",
     "technique": "property-based metamorphic / differential testing (rapid, shrinking): one scripted model output, re-chunked and "
                  "replayed by a mock runner behind the real scheduler, requested through the real router on /api/generate, /api/chat, "
-                 "/v1/completions and /v1/chat/completions, streamed and not; results compared with each other and with the output",
+                 "/v1/completions and /v1/chat/completions, streamed and not; results compared with each other and with the output; plus the "
+                 "real llm/server.go Completion (the client side of the runner protocol, which the mock replaces) against a scripted runner "
+                 "response stream, with an oracle over its callback sequence and return value",
     "level_text": "Randomised exploration of model outputs (plain text with multi-byte characters; 1-3 JSON tool calls bare / "
                   "array-wrapped / object-wrapped / fenced / tagged / surrounded by prose; JSON that is not a tool call; truncated JSON) "
                   "x splits into 1-12 runner chunks at rune boundaries (biased to fall inside JSON values and next to multi-byte "
@@ -20,16 +25,21 @@ CHECK = {
                   "The tool-call `index` field (streaming only) is not compared; OpenAI tool-call ids are random and not compared. "
                   "Token counts of an OpenAI stream are only observable with stream_options.include_usage (drawn per case).",
     "design_ref": "DESIGN.md section 3 C17",
-    "targets": [{"name": "TestC17StreamEquivalence",
+    "targets": [{"name": "TestC17StreamEquivalence", "build": 0,
                  "quick": {"cases": 3000, "shards": 2, "soft_s": 40},
-                 "thorough": {"cases": 40000, "shards": 16, "soft_s": 330}}],
+                 "thorough": {"cases": 40000, "shards": 14, "soft_s": 330}},
+                # the client side of the runner protocol (llm/server.go Completion), which the mock above replaces
+                {"name": "TestC17LlmCompletion", "build": 1,
+                 "quick": {"cases": 20000, "shards": 2, "soft_s": 30},
+                 "thorough": {"cases": 400000, "shards": 2, "soft_s": 300}}],
     "floors": {"shape_gen_raw": 0.02, "shape_gen_tmpl": 0.04, "shape_gen_suffix": 0.02, "shape_gen_format": 0.02,
                "shape_chat_plain": 0.04, "shape_chat_format": 0.02, "shape_chat_schema": 0.02, "shape_chat_tools": 0.15,
                "shape_chat_params": 0.08, "shape_chat_tools_format": 0.02, "shape_chat_notools": 0.02,
                "tool_calls_present": 0.2, "tool_calls_with_boundary_inside_json": 0.12, "tools_sent_no_call_found": 0.03,
                "boundary_inside_json": 0.2, "boundary_at_multibyte_char": 0.1, "empty_chunk": 0.08, "chunks_ge3": 0.4,
                "failure": 0.12, "failure_mid_stream": 0.05, "failure_before_first_chunk": 0.01, "failure_after_last_chunk": 0.01,
-               "tokenize_failure_after_done": 0.025, "tokenize_fault_without_effect": 0.04, "reason_length": 0.1, "openai_compared": 0.5, "openai_stream_usage_compared": 0.1, "boundary_after_first_call": 0.03},
+               "tokenize_failure_after_done": 0.025, "tokenize_fault_without_effect": 0.04, "reason_length": 0.1, "openai_compared": 0.5, "openai_stream_usage_compared": 0.1, "boundary_after_first_call": 0.03,
+               "more_than_30_equal_chunks_in_a_row": 0.05, "28_to_30_equal_chunks_in_a_row": 0.01, "end_reset": 0.03, "end_badjson": 0.03, "http_error_status": 0.03},
     "rule": "rapid-generated cases: request shape in {generate raw / templated / with suffix / with format json; chat plain / format json / "
             "format schema / tools ('arguments' template) / tools ('parameters' template) / tools+format / tool-capable model without tools}, "
             "model output built from prose words (ASCII, accented, CJK, emoji, U+2028, quotes, braces), tool-call objects in several "
@@ -41,7 +51,16 @@ CHECK = {
             "raw NDJSON body and on the client's view), OpenAI non-streamed and streamed (R3, R4 on the raw SSE body). Non-trivial = at least "
             "3 chunks with a boundary strictly inside a JSON object/array or next to a multi-byte character, or a runner failure after at "
             "least one chunk, or a Tokenize failure after Done that bites; distinct = distinct hash of the generated case.",
+    "rule_llm": "TestC17LlmCompletion: rapid-generated runner response streams for the real (*llmServer).Completion behind an in-process "
+                "http.RoundTripper: 0-8 runs of a piece from a 20-piece pool (words with leading/trailing blanks, newlines, blanks, empty, "
+                "digits, braces, multi-byte) repeated 1-64 times (29-33 over-represented: the loop guard's limit is 30), NDJSON or SSE "
+                "framing, optional blank lines, delivered 7 bytes per read; ending = Done line with reason and counts | clean end of body | "
+                "malformed JSON line | foreign JSON line | read error; or HTTP 400/500/503. Oracle: nil error <=> exactly one Done "
+                "response, delivered last, with the runner's reason and counts and the full text; delivered text always a prefix of the "
+                "text sent; never an error after Done; a complete stream below the guard's limit never gives an error.",
     "assumptions": [
+        "llm-level target: a response body that ends cleanly without a Done line (with or without a foreign JSON line before it) is outside the runners' behaviour - a crashed "
+        "runner gives an unexpected EOF, a failing encoder a plain-text line - so Completion returning nil for it is counted (obs_clean_eof_without_done_returns_nil), not judged",
         "runner chunks are valid UTF-8 and Done arrives in a separate content-free response (what llm/server.go forwards from both runners)",
         "done reason is stop or length (DoneReasonConnectionClosed means the client is gone)",
         "outputs are far below the 512 KiB line limit of api.Client's scanner (separate issue, DESIGN.md section 5)",
@@ -57,3 +76,4 @@ CHECK = {
         "/v1/completions is compared for templated and suffix generate requests only (raw and format have no OpenAI-compatible equivalent)",
     ],
 }
+CHECK["rule"] += " " + CHECK.pop("rule_llm")
